@@ -17,6 +17,8 @@ mod molecule;
 mod opt;
 mod pairs;
 mod utils;
+#[cfg(optrs_verif)]
+pub mod verif;
 
 use crate::cli::{run, CommandLineArguments};
 use clap::Parser;
